@@ -354,6 +354,64 @@ func settingsHistory(res *evid.Result, idx int) {
 	res.Count("settings_flips", int(flips.Load()))
 }
 
+// settingsWriters: two goroutines reconfigure at the same time, each the ONLY writer of its
+// parameter. One sets the threshold and scans right afterwards; the other keeps toggling the
+// entropy tolerance between two values that both let the stored D-version through (it scores
+// 0.75 either way). A scan that its own goroutine started after SetThreshold(0.9) returned
+// reports nothing below 0.9; after SetThreshold(0.5) returned it reports the D-version.
+func settingsWriters(res *evid.Result, idx int) {
+	db, err := openMem(fmt.Sprintf("/vdb/c11-setw-%d", idx))
+	if err != nil {
+		res.Violate("harness/open", err.Error(), nil)
+		return
+	}
+	defer db.Close()
+	d := version("X", "D-settings", true)
+	d.EntropyScore, d.EntropyTolerance = probe.EntropyScore+1, 0
+	if err := db.AddSignature(&d); err != nil {
+		res.Violate("op-result/AddSignature", err.Error(), nil)
+		return
+	}
+	db.SetEntropyTolerance(2)
+	db.SetThreshold(0.5)
+	stop := make(chan struct{})
+	var fw sync.WaitGroup
+	fw.Add(1)
+	go func() {
+		defer fw.Done()
+		for i := 0; ; i++ {
+			select {
+			case <-stop:
+				return
+			default:
+			}
+			db.SetEntropyTolerance([]float64{2, 3}[i%2])
+		}
+	}()
+	n := evid.Pick(4000, 40000)
+	for i := 0; i < n; i++ {
+		db.SetThreshold(0.9)
+		rs, err := db.ScanTopology(probe, "f")
+		if err != nil {
+			res.Violate("op-result/ScanTopology", err.Error(), nil)
+		}
+		for _, x := range rs {
+			if x.Confidence < 0.9 {
+				res.Violate("settings/threshold-write-lost", fmt.Sprintf("SetThreshold(0.9) had returned and nobody else writes the threshold (another goroutine only toggles the entropy tolerance), yet a scan started afterwards reports %q with confidence %v", x.SignatureName, x.Confidence), nil)
+			}
+		}
+		db.SetThreshold(0.5)
+		rs, _ = db.ScanTopology(probe, "f")
+		if len(rs) == 0 {
+			res.Violate("settings/threshold-write-lost", "SetThreshold(0.5) had returned and nobody else writes the threshold, yet a scan started afterwards does not report the stored version that scores 0.75 under either tolerance in use", nil)
+		}
+	}
+	close(stop)
+	fw.Wait()
+	res.Eval(2 * n)
+	res.Count("settings_writer_rounds", n)
+}
+
 func writerOp(db *pebbledb.PebbleScanner, r *rand.Rand, c, i int, cfg histCfg, now func() int64, add func(rec), report func(string, string, any)) {
 	name := func(tag string) string { return fmt.Sprintf("%s%d-%d", tag, c, i) }
 	if cfg.pairMode {
@@ -946,6 +1004,13 @@ func child() {
 			settingsHistory(res, i)
 		}(i)
 	}
+	wg.Add(1)
+	sem <- struct{}{}
+	go func() {
+		defer wg.Done()
+		defer func() { <-sem }()
+		settingsWriters(res, 0)
+	}()
 	for i := 0; i < nj; i++ {
 		wg.Add(1)
 		sem <- struct{}{}
